@@ -357,6 +357,50 @@ def catalogue():
         l, Q = A.eigh(x)
         return l * l
 
+    def _eig_fun(A, x):
+        # Q diag(l^2) Q^-1 (= x.x in exact arithmetic): independent of order and scaling of the eigenvectors
+        l, Q = A.eig(x)
+        return A.real(A.dot(A.dot(Q, A.diag(l * l)), A.inv(Q))) * A.c['c']
+
+    def _eig_vals(A, x):
+        l, Q = A.eig(x)
+        return A.real(A.sum(l * l * l))
+
+    def _svd(A, x):
+        U, s, V = A.svd(x)
+        y = A.sum(s * A.c['cv'])
+        for j in range(2):
+            y = y + A.sum(A.outer(U[:, j], V[:, j]) * A.c['c%d' % j])
+        return y
+
+    def _svd_u(A, x):
+        U, s, V = A.svd(x)
+        return A.sum(A.outer(U[:, 0], U[:, 0]) * A.c['c0'])
+
+    def _svd_uv(A, x):
+        U, s, V = A.svd(x)
+        return A.sum(A.outer(U[:, 1], V[:, 1]) * A.c['c0'])
+
+    def _svd_wide(A, x):
+        # 2x3: the uniquely defined outputs are s, u_j v_j^T and the projector on the null space v_3 v_3^T
+        U, s, V = A.svd(x)
+        y = A.sum(s * A.c['cv']) + A.sum(A.outer(V[:, 2], V[:, 2]) * A.c['c2'])
+        for j in range(2):
+            y = y + A.sum(A.outer(U[:, j], V[:, j]) * A.c['c%d' % j])
+        return y
+
+    def _svd_wide_null(A, x):
+        U, s, V = A.svd(x)
+        return A.sum(A.outer(V[:, 2], V[:, 2]) * A.c['c2'])
+
+    def _svd_wide_uv(A, x):
+        U, s, V = A.svd(x)
+        return A.sum(A.outer(U[:, 0], V[:, 0]) * A.c['c0'])
+
+    def _svd_vals(A, x):
+        U, s, V = A.svd(x)
+        return s * s[::-1] + s
+
     def _lu(A, x):
         W, L, U = A.lu(x)
         return A.sum(L * A.c['cl']) + A.sum(U * A.c['cu'])
@@ -371,6 +415,17 @@ def catalogue():
     add('cholesky(2x2)', _chol, shape=(2, 2), group='factor', tags=['fac:cholesky', 'symmetric'], consts={'cl': (2, 2)})
     add('eigh(2x2)', _eigh, shape=(2, 2), group='factor', tags=['fac:eigh', 'symmetric'], consts={'cv': (2,), 'c0': (2, 2), 'c1': (2, 2)})
     add('eigh-values(2x2)', _eigh_vals, shape=(2, 2), group='factor', tags=['fac:eigh', 'symmetric'])
+    add('eig-function(2x2)', _eig_fun, shape=(2, 2), group='factor', tags=['fac:eig', 'Dmax2'], consts={'c': (2, 2)})
+    add('eig-values(2x2)', _eig_vals, shape=(2, 2), group='factor', tags=['fac:eig', 'Dmax2'])
+    add('svd(2x2)', _svd, shape=(2, 2), group='factor', tags=['fac:svd', 'Dmax2', 'D1only'], consts={'cv': (2,), 'c0': (2, 2), 'c1': (2, 2)})
+    add('svd-U-projector(2x2)', _svd_u, shape=(2, 2), group='factor', tags=['fac:svd', 'Dmax2', 'heavy'], consts={'c0': (2, 2)})
+    add('svd-u1v1T(2x2)', _svd_uv, shape=(2, 2), group='factor', tags=['fac:svd', 'Dmax2', 'heavy'], consts={'c0': (2, 2)})
+    # (all outputs of the wide svd together with a symbolic 3x3 rotation: the solver does not finish; one output at a time does)
+    add('svd-null-projector(2x3)', _svd_wide_null, shape=(2, 3), group='factor', tags=['fac:svd', 'Dmax2', 'D1only'], consts={'c2': (3, 3)})
+    add('svd-u0v0T(2x3)', _svd_wide_uv, shape=(2, 3), group='factor', tags=['fac:svd', 'Dmax2', 'D1only'], consts={'c0': (2, 3)})
+    add('svd(2x3), concrete V0', _svd_wide, shape=(2, 3), group='factor', tags=['fac:svd', 'Dmax2', 'D1only', 'fixedrot'], consts={'cv': (2,), 'c0': (2, 3), 'c1': (2, 3), 'c2': (3, 3)})
+    add('svd-values(2x3), concrete V0', _svd_vals, shape=(2, 3), group='factor', tags=['fac:svd', 'Dmax2', 'fixedrot'])
+    add('svd-values(2x2)', _svd_vals, shape=(2, 2), group='factor', tags=['fac:svd', 'Dmax2'])
     add('lu(2x2)', _lu, shape=(2, 2), group='factor', tags=['lu'], consts={'cl': (2, 2), 'cu': (2, 2)})
     # ---- fft (complex intermediates, real inputs and outputs) ---------------------------
     add('real(fft(x,axis=0))', lambda A, x: A.real(A.fft.fft(x, axis=0)), shape=(2, 2), group='fft')
